@@ -1433,19 +1433,32 @@ class UserAttribute(Packet):
     def __init__(self):
         super(UserAttribute, self).__init__()
         self.subpackets = UserAttributeSubPackets()
+        # the subpacket octets exactly as they were received: certifications are computed over them, and a
+        # re-serialisation need not be identical (subpacket lengths need not use the shortest form, for instance)
+        self._raw = None
+
+    @property
+    def body(self):
+        if self._raw is not None:
+            return bytearray(self._raw)
+        return self.subpackets.__bytearray__()
 
     def __bytearray__(self):
         _bytes = bytearray()
         _bytes += super(UserAttribute, self).__bytearray__()
-        _bytes += self.subpackets.__bytearray__()
+        _bytes += self.body
         return _bytes
 
     def parse(self, packet):
         super(UserAttribute, self).parse(packet)
+        raw = bytearray(packet[:self.header.length])
 
         plen = len(packet)
         while self.header.length > (plen - len(packet)):
             self.subpackets.parse(packet)
+
+        if plen - len(packet) == len(raw):
+            self._raw = raw
 
     def update_hlen(self):
         self.subpackets.update_hlen()
